@@ -811,7 +811,7 @@ func apiScenario(x *explore.X) {
 
 func TestC13(t *testing.T) {
 	s := explore.NewSuite(t, "C13", "model_checking",
-		"(sequences) every sequence of 1-2 (quick) / 1-3 (thorough) exchanges over 20 kinds (an Upgrade whose request also says Connection: close, a request whose connection is redirected by --connect-to to another host, two exchanges overlapping on two connections with the same X-Request-Id, ok, HEAD, POST, 403, 407, dial error, origin reset mid-body, CONNECT torn down client-first / target-first, Upgrade, MITM hand-off + inner request, rejected upstream CONNECT inside MITM, client abort while uploading / downloading / before the response, client abort while the proxy is still dialling the CONNECT target (the tunnel-establishing 200 cannot be written), client abort before the 101 of an Upgrade) on the same or a new client connection, against one proxy configured with basic auth, deny-domains, mitm-domains and a PAC-selected upstream; states = quiescent points between exchanges (and inside tunnels), at each the real Prometheus registry is gathered: in-flight gauge = requests in progress, requests_total = exactly one per request read under the status sent, listener/dialer active gauges = sockets the proxy actually holds (from the simulated network), all gauges zero at the end; (api) Listener/Dialer with traffic tracking: every sequence of <= 3 operations (Write, Read, io.Copy in/out, a Write cut short by a stalled and then resetting peer, io.Copy from a source that fails after n bytes) x sizes, Observer rx/tx = bytes moved, then 1-3 Close calls: active gauge drops exactly once; (concurrent-close) 2-3 threads closing one tracked connection under a controlled scheduler, OnClose exactly once")
+		"(sequences) every sequence of 1-2 (quick) / 1-3 (thorough) exchanges over 20 kinds (an Upgrade whose request also says Connection: close, a request whose connection is redirected by --connect-to to another host, two exchanges overlapping on two connections with the same X-Request-Id, ok, HEAD, POST, 403, 407, dial error, origin reset mid-body, CONNECT torn down client-first / target-first, Upgrade, MITM hand-off + inner request, rejected upstream CONNECT inside MITM, client abort while uploading / downloading / before the response, client abort while the proxy is still dialling the CONNECT target (the tunnel-establishing 200 cannot be written), client abort before the 101 of an Upgrade) on the same or a new client connection, against one proxy configured with basic auth, deny-domains, mitm-domains and a PAC-selected upstream; states = quiescent points between exchanges (and inside tunnels), at each the real Prometheus registry is gathered: in-flight gauge = requests in progress, requests_total = exactly one per request read under the status sent, listener/dialer active gauges = sockets the proxy actually holds (from the simulated network), all gauges zero at the end; (api) Listener/Dialer with traffic tracking: every sequence of <= 3 operations (Write, Read, io.Copy in/out, a Write cut short by a stalled and then resetting peer, io.Copy from a source that fails after n bytes) x sizes, Observer rx/tx = bytes moved, then 1-3 Close calls: active gauge drops exactly once; (concurrent-close) 2-3 threads closing one tracked connection under a controlled scheduler, OnClose exactly once; (round 9) kinds CONNECT relayed through the PAC-selected upstream proxy that answers 200 / that reads the CONNECT and never answers (connect time-out): the dialled connection is released, dialer gauge back to zero")
 	s.Assume = []string{"simnet is the ground truth for which sockets are open", "status of a response to a client that has vanished is unknowable; for those only 'exactly one completion' is required", "(concurrent-close) conntrack's sync.Once / atomics are redirected at build time to a cooperative scheduler: all interleavings of 2-3 concurrent Close calls (and a reader) with at most 2 (quick) / 3 (thorough) preemptions"}
 	for _, tier := range []string{"quick", "thorough"} {
 		l := map[string]int{"quick": 2, "thorough": 3}[tier]
